@@ -224,6 +224,20 @@ class _Lower(ast.NodeTransformer):
             b.value = v.values[1] if len(v.values) == 2 else ast.BoolOp(op=ast.Or(), values=v.values[1:])
             new = ast.If(test=copy.deepcopy(v.values[0]), body=[self.visit(a)], orelse=[self.visit(b)])
             return ast.copy_location(new, st)
+        if isinstance(v, ast.Call) and isinstance(v.func, ast.Attribute) and v.func.attr == "get" and isinstance(v.func.value, ast.Dict) and 1 <= len(v.args) <= 2 and not v.keywords \
+                and v.func.value.keys and all(isinstance(k, ast.Constant) for k in v.func.value.keys) and substitutable(v.args[0]):
+            # x = {k1: v1, k2: v2}.get(K, D)  ->  if K == k1: x = v1 elif K == k2: x = v2 else: x = D
+            d = v.func.value
+            default = v.args[1] if len(v.args) == 2 else ast.Constant(value=None)
+            tail = copy.deepcopy(st)
+            tail.value = default
+            node: ast.stmt = self.visit(tail)
+            for k, val in reversed(list(zip(d.keys, d.values))):
+                arm = copy.deepcopy(st)
+                arm.value = val
+                test = ast.Compare(left=copy.deepcopy(v.args[0]), ops=[ast.Eq()], comparators=[k])
+                node = ast.copy_location(ast.If(test=test, body=[self.visit(arm)], orelse=[node]), st)
+            return node
         if isinstance(v, ast.IfExp):
             a, b = copy.deepcopy(st), copy.deepcopy(st)
             a.value, b.value = v.body, v.orelse
